@@ -154,6 +154,31 @@ def drive_c03(sess, rnd, cfg, record):
     yield from _prefix(sess, rnd, cfg, record, n_ops=3)
     g = sess.gen
     R = g.r
+    if klass == "modest" and sess.model.mux() is None and R.chance(0.12):
+        # a supply that is strong in one phase and weak in the next: a mux falls
+        # back from a phase-limited 5 V source to a 3 V cell with 10 ohm, the
+        # load is heavy in the first phase only.  Every phase has a modest
+        # operating point of its own.
+        from .spec import mk
+
+        m = sess.model
+        phs = list(m.sys_phases.keys())
+        if len(phs) < 2:
+            phs = ["tx", "sleep"] if R.chance(0.7) else ["sleep", "tx"]
+            yield _emit(record, {"op": "set_sys_phases", "phases": {phs[0]: R.pick([0.1, 5.5]), phs[1]: R.pick([120.0, 3600.0])}})
+        hot = phs[0] if R.chance(0.7) else phs[-1]
+        strong = mk("Source", g.fresh("S", m), {"vo": 5.0, "rs": 0.05}, None)
+        weak = mk("Source", g.fresh("S", m), {"vo": 3.0, "rs": 10.0}, None)
+        mux = mk("PMux", g.fresh("PM", m), {"rs": 0.01}, None)
+        load = mk("PLoad", g.fresh("PL", m), {"pwr": 2.0, "pwrs": 0.001}, None)
+        yield _emit(record, {"op": "add_source", "comp": strong, "group": "", "rail": ""})
+        yield _emit(record, {"op": "add_source", "comp": weak, "group": "", "rail": ""})
+        yield _emit(record, {"op": "set_comp_phases", "name": strong["name"], "conf": [hot]})
+        yield _emit(record, {"op": "add_comp", "parent": [strong["name"], weak["name"]], "comp": mux, "group": "", "rail": ""})
+        yield _emit(record, {"op": "add_comp", "parent": mux["name"], "comp": load, "group": "", "rail": ""})
+        yield _emit(record, {"op": "set_comp_phases", "name": load["name"], "conf": {hot: 2.0}})
+        sess.stats["c03_phase_fallback_scenarios"] += 1
+        yield _emit(record, {"op": "observe", "ta": 25.0, "sh": 1, "kw": {}, "c03": klass})
     for _ in range(R.randint(2, 6)):
         m = sess.model
         if klass == "stress":
